@@ -258,7 +258,10 @@ theorem carveSSem_of_carveS (env : CEnv) :
         · exact Or.inr (castOKSem_of_castOK h2)
       · next m hce => rw [hce]
   | .skip _, _ => by rw [CarveSSem]
-  | .exprstmt _, _ => by rw [CarveSSem]
+  | .exprstmt e, h => by
+      rw [CarveS] at h
+      rw [CarveSSem]
+      exact carveESem_of_carveE h
   | .ret _, _ => by rw [CarveSSem]
   | .vcall _ _ _ _, _ => by rw [CarveSSem]
 theorem carveSsSem_of_carveSs (env : CEnv) :
